@@ -16,8 +16,13 @@ import (
 	"verif/rhpx"
 )
 
-// errInfra marks conditions that are not verdicts (watchdog, fixture set-up).
-var errInfra = errors.New("INFRA")
+// errInfra marks fixture failures (never expected on a tree that builds);
+// errInconclusive marks a case that could not reach a verdict (watchdog) and
+// has already been counted as such.
+var (
+	errInfra        = errors.New("INFRA")
+	errInconclusive = errors.New("inconclusive")
+)
 
 func mod(i, n int) int {
 	if n <= 0 {
@@ -100,7 +105,7 @@ func (s *session) form(allowance, collateral types.Currency, proofDelta uint64) 
 	}
 	fr := s.R.Form(s.Prices, params, rhpx.Script{}, nil)
 	if fr.Infra != nil {
-		return nil, fmt.Errorf("%w: %v", errInfra, fr.Infra)
+		return nil, fr.Infra
 	}
 	if !fr.Done {
 		return nil, fmt.Errorf("honest contract formation failed: %v", fr.Result)
@@ -300,7 +305,7 @@ func (s *session) clientFund(m *mcontract, deposits []proto4.AccountDeposit) (rh
 
 func (s *session) idle(err error) error {
 	if !s.H.Client.WaitIdle(rhpx.Watchdog) {
-		return fmt.Errorf("%w: %v", errInfra, rhpx.ErrWatchdog)
+		return rhpx.ErrWatchdog
 	}
 	return err
 }
@@ -310,11 +315,13 @@ func infra(cs *kit.CaseStats, err error) (bool, error) {
 	if err == nil {
 		return false, nil
 	}
-	if errors.Is(err, errInfra) || errors.Is(err, rhpx.ErrWatchdog) {
-		if errors.Is(err, rhpx.ErrWatchdog) {
-			cs.Inconclusive("watchdog")
-			return true, nil
-		}
+	switch {
+	case errors.Is(err, errInconclusive):
+		return true, nil
+	case errors.Is(err, rhpx.ErrWatchdog):
+		cs.Inconclusive("watchdog")
+		return true, nil
+	case errors.Is(err, errInfra):
 		return true, err
 	}
 	return false, err
